@@ -9,7 +9,19 @@ def c03_eq_pointer_shortcut(op, impl, model, args):
     if not re.search(r"\((\w+) [=!]= \1\)", src):
         return False
     spec = model.get("spec", {})
-    return "err" in spec and "ok" in impl
+    if "err" in spec and "ok" in impl:
+        return True
+    # the other face of the same shortcut: nothing fails, the value is the same, but the contents the
+    # comparison would have forced are not forced: the implementation's trace labels are a proper
+    # sub-multiset of the semantics'
+    if "ok" in spec and "ok" in impl and spec["ok"] == impl["ok"]:
+        want, got = list(spec.get("trace", [])), list(impl.get("trace", []))
+        for t in got:
+            if t not in want:
+                return False
+            want.remove(t)
+        return len(want) > 0
+    return False
 
 
 def c03_self_dependent_field_under_assert(op, impl, model, args):
